@@ -162,7 +162,7 @@ def _gen_metric(rng, kind, allv):
 
 def gen_one(rng, i, tier):
     kind = "group" if rng.random() < 0.42 else "scores"
-    big = rng.random() < 0.05
+    big = rng.random() < 0.1
     if big:
         npos, nneg = rng.randint(100, 112), rng.randint(100, 112)
     else:
@@ -662,6 +662,38 @@ def build(inp) -> Case:
                 or r2[1].tobytes() != mat.tobytes():
             fail("reproducible", f"two bootstrap_metric runs under np.random.seed({seed}) differ: {_short(mat)} vs "
                  f"{_short(r2[1]) if r2[0] == 'ok' else r2[1]}", "boot/metric/reproducible")
+        # reproducible whatever was called on the object before ("all bootstrap results are reproducible
+        # for a fixed seed" over call histories): an intervening bootstrap call with a DIFFERENT
+        # configuration must not change what the configured sampler produces afterwards
+        from score_analysis import BootstrapConfig as _BC
+        smp_ = inp["sampler"]
+        if smp_["sampling_method"] in ("replacement", "dynamic") and inp["kind"] == "scores":
+            alt = _BC(nb_samples=1, sampling_method=smp_["sampling_method"], stratified_sampling=smp_["stratified"],
+                      smoothing=not smp_["smoothing"])
+        else:
+            alt = _BC(nb_samples=1, sampling_method="replacement" if smp_["sampling_method"] != "replacement" else "single_pass",
+                      stratified_sampling=None)
+        objB = _make_obj(inp)
+        objB = objB[0] if isinstance(objB, tuple) else objB
+        np.random.seed(seed + 1)
+        common.call(objB.bootstrap_sample, alt)   # on a FRESH object the other configuration comes first
+        np.random.seed(seed + 1)
+        common.call(obj.bootstrap_sample, alt)    # and on the used object it comes in between
+        np.random.seed(seed)
+        rB = common.call(objB.bootstrap_metric, metric_arg, cfg, **kwargs)
+        if rB[0] == "exc" or not isinstance(rB[1], np.ndarray) or rB[1].shape != mat.shape \
+                or rB[1].tobytes() != mat.tobytes():
+            fail("reproducible", f"bootstrap_metric under np.random.seed({seed}) on an equal object that first ran "
+                 f"bootstrap_sample with another configuration ({alt}) differs: {_short(mat)} vs "
+                 f"{_short(rB[1]) if rB[0] == 'ok' else rB[1:]}", "boot/metric/reproducible-history")
+        np.random.seed(seed)
+        r3 = common.call(obj.bootstrap_metric, metric_arg, cfg, **kwargs)
+        evals[0] += 1
+        if r3[0] == "exc" or not isinstance(r3[1], np.ndarray) or r3[1].shape != mat.shape \
+                or r3[1].tobytes() != mat.tobytes():
+            fail("reproducible", f"bootstrap_metric under np.random.seed({seed}) changed after an intervening "
+                 f"bootstrap_sample call with another configuration ({alt}): {_short(mat)} vs "
+                 f"{_short(r3[1]) if r3[0] == 'ok' else r3[1:]}", "boot/metric/reproducible-history")
         # row j = metric of the j-th sample of a fresh bootstrap_sample loop under the same seed
         h = common.call(lambda: expected_rows(fresh_samples()))
         if h[0] == "exc":
